@@ -121,3 +121,52 @@ def compare_with_model(obs, m):
     if len(got) != len(want) or not all(formats.same(a, b, True) for a, b in zip(got, want)):
         return f"output documents differ from the model (format {fmt})"
     return None
+
+
+def chain_layout(rng, layers, exts=("json", "yaml", "jsonl", "yml"), share=False):
+    """layers (base first) as files `a.<ext>` <- `a.l1.<ext>` <- ...; share=True writes YAML layers with anchors/aliases for equal
+    subtrees (the model sees the plain values: an alias is a copy)"""
+    name, layout, top = "a", {}, None
+    for i, l in enumerate(layers):
+        if i:
+            name += ".l%d" % i
+        ext = rng.choice(exts)
+        if ext == "toml" and not formats.toml_ok(l):
+            ext = "yaml"
+        docs = [l]
+        if share and ext in ("yaml", "yml"):
+            docs = [formats.share_equal(l)]
+        layout[f"{name}.{ext}"] = {"fmt": ext, "docs": docs}
+        top = f"{name}.{ext}"
+    return layout, top
+
+
+def file_chain_stage(rep, cases, what="layer files evaluated by the command line"):
+    """cases: [{"layout", "opts", "meta"}]: the command line on the files against the model of loader + inheritance + evaluation"""
+    res = pmap(run_case, cases)
+    ops = []
+    for i, (obs, op) in enumerate(res):
+        op["id"] = i
+        ops.append(op)
+    mres = run_model(ops)
+    bad = 0
+    for i, (c, (obs, op)) in enumerate(zip(cases, res)):
+        rep.case(["file-chain", c["layout"]], len(c["layout"]) >= 2)
+        rep.count(f"file-chain:{c['meta'].get('kind', '')}:{len(c['layout'])}layers:rc{obs['rc']}:model={'err' if 'err' in (mres.get(i) or {}) else 'unmodelled' if 'unmodelled' in (mres.get(i) or {}) else 'ok'}")
+        d = compare_with_model(obs, mres.get(i))
+        if d:
+            bad += 1
+            if len(rep.violations) < 5:
+                rep.violation(what + ": " + d, {"case": {"filechain": c}, "observed": obs, "model": mres.get(i)})
+    return bad
+
+
+def file_chain_replay(case):
+    obs, op = run_case(case)
+    op["id"] = 0
+    m = run_model([op]).get(0)
+    d = compare_with_model(obs, m)
+    print("impl :", obs)
+    print("model:", str(m)[:600])
+    print("disagreement:", d)
+    return 1 if d else 0
